@@ -118,6 +118,20 @@ def tiny_cases(T, full):
                                desc='intersects(box, ray, ip) with a denormal-like direction component (%s): a skipped (guarded) division never turns a robust hit into a miss; reported point in the box' % tag, **kw))
                 cs.append(Case('O3.tiny_component.findEntryAndExitPoints.dir%s.%s' % (tag, T), 'w_entryexit{T}', [In('l', 6), In('b', 6), Out('en', 3), Out('ex', 3)], ee,
                                desc='findEntryAndExitPoints with a denormal-like direction component (%s): the parallel-slab fallback agrees with geometry up to the margin' % tag, **kw))
+                # origin exactly ON the entry face of the tiny axis (a ray skimming along the face): the front-face quotient is 0/dir == 0 and must
+                # not be replaced by TMAX because of the FAR face's distance; geometry is exact here (no margin), provided the slab is not thinner than 2^-40
+                def pre_face(I, k=k, sg=sg, pre=pre):
+                    b = I['b']; pos = I['l'][:3]
+                    return pre(I) + [eq(pos[k], b[3 + k] if sg < 0 else b[k]), le(rz(MARGIN), rsub(b[3 + k], b[k]))]
+                def ray_face(I, O, X):
+                    b = I['b']; pos = I['l'][:3]; d = I['l'][3:]; hit = asb(O['ret']); t = X.free('t'); ip = O['ip']
+                    return [('miss => no t >= 0 puts the point inside the box (exact)', IMPLIES(NOT(hit), NOT(AND(le(rz(0), t), inbox(pt(pos, d, t), b))))),
+                            ('hit => ip in the box', IMPLIES(hit, inbox(ip, b)))]
+                if oth == others[0]:
+                    kwf = dict(kw); kwf['pre'] = pre_face; kwf['nvalid'] = 0
+                    kwf['bounds'] = BOUNDS + '; direction component %d in (0, 2^-100] resp. [-2^-100, 0), ray origin exactly on the entry face of that axis, slab at least 2^-40 thick' % k
+                    cs.append(Case('O3.tiny_component_on_face.intersects_ip.dir%s.%s' % (tag, T), 'w_raybox_ip{T}', [In('b', 6), In('l', 6), Out('ip', 3)], ray_face,
+                                   desc='intersects(box, ray, ip), origin on the entry face of an axis whose direction component is denormal-like (%s): the overflow guard of the FRONT-face quotient looks at the front-face distance, so a skimming hit is never reported as a miss' % tag, **kwf))
     return cs
 
 
